@@ -2,25 +2,46 @@ import Hannibal.Model.Spawn
 /-
   C18 — spawn / detach / join behave identically on tokio, async-std and smol.
 
-  If no spawn entry point drops the task handle and dropping hannibal's
-  `ActorHandle` detaches, then for every entry point and every program of
-  drop / detach / stop / call / join operations — any length — the observable
-  outcome is the same on every runtime, and every entry point leaves the actor
-  running.
+  If no spawn entry point drops the task handle, no spawner installs a detach closure that could take the task
+  away from a join future that has not been polled yet, and every spawner whose runtime cancels a task when its
+  handle is dropped wraps the handle in a guard that detaches instead, then for every entry point and every
+  program of drop / detach / stop / call / join / joinCreate / joinPoll / joinAwait / joinDrop operations — any
+  length — the observable outcome is the same on every runtime, and every entry point leaves the actor running.
 -/
 namespace Hannibal
 
 def WellWired18 (w : SpawnWiring) : Prop :=
-  w.handleDropDetaches = true ∧ ∀ e, w.disp e = .kept ∨ w.disp e = .detached
+  w.lazySharedSlot = true ∧ w.joinDetachPlain = true ∧
+  (∀ e, w.disp e = .kept ∨ w.disp e = .detached) ∧
+  (∀ r, w.detachFn r = false) ∧
+  (∀ r, dropCancels r = true → w.taskGuarded r = true)
 
-theorem dropHandle_id (w : SpawnWiring) (hw : w.handleDropDetaches = true) (r : Runtime) (t : TaskSt) :
-    dropHandle w r t = t := by simp [dropHandle, hw]
+theorem dropTask_id (w : SpawnWiring) (hw : WellWired18 w) (r : Runtime) (t : TaskSt) :
+    dropTask w r t = t := by
+  unfold dropTask
+  cases hc : dropCancels r
+  · simp
+  · simp [hw.2.2.2.2 r hc]
 
-theorem step18_indep (w : SpawnWiring) (hw : w.handleDropDetaches = true) (r : Runtime) (s : S18) (op : Op18) :
+theorem runDetachFn_id (w : SpawnWiring) (hw : WellWired18 w) (r : Runtime) (s : S18) :
+    s.runDetachFn w r = s := by
+  simp [S18.runDetachFn, hw.2.2.2.1 r]
+
+theorem release_indep (w : SpawnWiring) (hw : WellWired18 w) (r : Runtime) (s : S18) :
+    s.release w r = s.release w .tokio := by
+  simp [S18.release, dropTask_id w hw]
+
+theorem pollLast_indep (w : SpawnWiring) (hw : WellWired18 w) (r : Runtime) (s : S18) :
+    pollLast w r s = pollLast w .tokio s := by
+  unfold pollLast
+  simp [release_indep w hw r]
+
+theorem step18_indep (w : SpawnWiring) (hw : WellWired18 w) (r : Runtime) (s : S18) (op : Op18) :
     step18 w r s op = step18 w .tokio s op := by
-  cases op <;> simp [step18, dropHandle_id w hw]
+  cases op <;>
+    simp [step18, dropTask_id w hw, runDetachFn_id w hw, release_indep w hw r, pollLast_indep w hw r]
 
-theorem run18_indep (w : SpawnWiring) (hw : w.handleDropDetaches = true) (r : Runtime) :
+theorem run18_indep (w : SpawnWiring) (hw : WellWired18 w) (r : Runtime) :
     ∀ (p : List Op18) (s : S18), run18 w r s p = run18 w .tokio s p
   | [], _ => rfl
   | op :: ops, s => by
@@ -30,19 +51,59 @@ theorem run18_indep (w : SpawnWiring) (hw : w.handleDropDetaches = true) (r : Ru
 theorem afterSpawn_indep (w : SpawnWiring) (hw : WellWired18 w) (r : Runtime) (e : SpawnEntry) :
     afterSpawn w r e = afterSpawn w .tokio e ∧ (afterSpawn w r e).task = .running := by
   unfold afterSpawn
-  rcases hw.2 e with h | h <;> simp [h]
+  rcases hw.2.2.1 e with h | h <;>
+    simp [h, runDetachFn_id w hw, S18.release, dropTask_id w hw]
 
 /-- **C18.** -/
 theorem C18_holds (w : SpawnWiring) (hw : WellWired18 w) (r : Runtime) (e : SpawnEntry) (p : List Op18) :
     outcome w r e p = outcome w .tokio e p ∧ (afterSpawn w r e).task = .running := by
   unfold outcome
-  rw [(afterSpawn_indep w hw r e).1, run18_indep w hw.1 r]
+  rw [(afterSpawn_indep w hw r e).1, run18_indep w hw r]
   exact ⟨rfl, (afterSpawn_indep w hw .tokio e).2⟩
 
-/-- Without the two facts the property fails: an entry point that drops the handle leaves a
-    cancelled actor on smol and a running one on tokio. -/
-def badWiring : SpawnWiring := { disp := fun _ => .dropped, handleDropDetaches := false }
+/-! Each hypothesis is needed. -/
+
+/-- a wiring that satisfies `WellWired18` (what the repaired source looks like) -/
+def goodWiring : SpawnWiring :=
+  { disp := fun e => match e with
+      | .spawnOwning | .spawnOwningDefault | .spawnOwningOnStream | .builderSpawnOwning
+      | .streamBuilderSpawnOwning | .spawnWith => .kept
+      | _ => .detached
+    handleDropDetaches := true, detachFn := fun _ => false, taskGuarded := fun r => r == .smol,
+    lazySharedSlot := true, joinDetachPlain := true }
+
+theorem goodWiring_ok : WellWired18 goodWiring := by
+  refine ⟨rfl, rfl, ?_, fun _ => rfl, ?_⟩
+  · intro e; cases e <;> simp [goodWiring]
+  · intro r; cases r <;> simp [dropCancels, goodWiring]
+
+/-- an entry point that drops the handle (and no `Drop` impl, no guard): a cancelled actor on smol, a running
+    one on tokio -/
+def badWiring : SpawnWiring :=
+  { goodWiring with disp := fun _ => .dropped, handleDropDetaches := false, taskGuarded := fun _ => false }
 example : outcome badWiring .smol .streamBuilderSpawn [.call] = [.callErr] := by decide
 example : outcome badWiring .tokio .streamBuilderSpawn [.call] = [.callOk] := by decide
+
+/-- smol's task handle unguarded: a join future that was polled once and then dropped (a join with a timeout)
+    cancels the actor on smol only -/
+def unguarded : SpawnWiring := { goodWiring with taskGuarded := fun _ => false }
+example : outcome unguarded .smol .spawnOwning [.joinCreate, .joinPoll, .joinDrop, .call]
+    = [.joinPending, .callErr] := by decide
+example : outcome unguarded .tokio .spawnOwning [.joinCreate, .joinPoll, .joinDrop, .call]
+    = [.joinPending, .callOk] := by decide
+
+/-- a detach closure on smol (run by `detach` and by the handle's `Drop`): it takes the task away from a join
+    future that was created before (`consume_sync`), which then resolves to `None` on smol only -/
+def stealing : SpawnWiring := { goodWiring with detachFn := fun r => r == .smol }
+example : outcome stealing .smol .spawnOwning [.stop, .joinCreate, .dropOwner, .joinAwait] = [.joinNone] := by decide
+example : outcome stealing .tokio .spawnOwning [.stop, .joinCreate, .dropOwner, .joinAwait] = [.joinSome] := by decide
+example : outcome stealing .smol .spawnOwning [.joinCreate, .detach, .call, .stop, .joinAwait]
+    = [.callOk, .joinNone] := by decide
+
+/-- non-trivial programs on a well-wired source: the same on every runtime -/
+example : outcome goodWiring .smol .spawnOwning [.joinCreate, .joinPoll, .joinDrop, .call, .stop, .join]
+    = [.joinPending, .callOk, .joinNone] := by decide
+example : outcome goodWiring .smol .spawnOwning [.call, .stop, .join, .join] = [.callOk, .joinSome, .joinNone] := by
+  decide
 
 end Hannibal
